@@ -380,6 +380,32 @@ func runGenerated(r *rng.R, idx int) *Result {
 				continue
 			}
 		}
+		// GetLIDs overlap gadget: two readers of the same token on the same fraction, both parked at search.leaf,
+		// continue with a forced overlap inside TokenLIDs.GetLIDs (StepPair)
+		if r.Chance(1, 6) && !e.rs[0].inop && !e.rs[1].inop {
+			do(Label{K: "Snap", T: 0})
+			do(Label{K: "Snap", T: 1})
+			if n := len(e.rs[0].snap); n > 0 && n == len(e.rs[1].snap) {
+				j, q := r.Intn(n), rng.Pick(r, []int{0, 1, 7})
+				for _, ri := range []int{0, 1} {
+					do(Label{K: "SB", T: ri, J: j, Q: q})
+					for k := 0; k < 3 && e.rs[ri].inop && e.rs[ri].at != 23 && !e.hang; k++ {
+						do(Label{K: "R", T: ri})
+					}
+				}
+				if e.rs[0].inop && e.rs[1].inop && e.rs[0].at == 23 && e.rs[1].at == 23 && !e.hang {
+					oa, ob := e.StepPair(0, 1)
+					labels = append(labels, Label{K: "R", T: 0, P: 1}, Label{K: "R", T: 1})
+					obs = append(obs, oa, ob)
+					for _, o := range []Obs{oa, ob} {
+						if o.K == "res" {
+							seen = append(seen, o.IDs...)
+						}
+					}
+					e.counts = append(e.counts, "gadget:getlids-overlap")
+				}
+			}
+		}
 		// negation gadget (window of a28a3f7): a writer is parked between two queue puts, a reader runs a query with
 		// NOT over the writer's fraction from start to end
 		if r.Chance(1, 7) {
